@@ -656,6 +656,10 @@ func writeEvidence(root string, c *checks.Check, tier string, seed int, m *check
 		"violations":  nviol,
 	}
 	b, _ := json.MarshalIndent(ev, "", " ")
-	os.MkdirAll(filepath.Join(root, "evidence"), 0o755)
-	os.WriteFile(filepath.Join(root, "evidence", c.ID+".json"), b, 0o644)
+	dir := filepath.Join(root, "evidence")
+	if d := os.Getenv("VERIF_EVIDENCE_DIR"); d != "" {
+		dir = d // runs against scratch worktrees (seeded changes) must not overwrite the evidence of the real tree
+	}
+	os.MkdirAll(dir, 0o755)
+	os.WriteFile(filepath.Join(dir, c.ID+".json"), b, 0o644)
 }
